@@ -5,7 +5,7 @@ CHECKS = {}
 CHECKS["C01"] = {
     "id": "C01",
     "level": "exploration",
-    "rule": ("cases = seeded programs (<=12 steps quick, <=30 thorough) over the public Manifold API from "
+    "rule": ("cases = seeded programs (<=12 steps quick, <=24 thorough) over the public Manifold API from "
              "common/dsl.h (all regimes incl. coincident/near-degenerate/eps-invalid); every value produced by "
              "every step is observed. distinct_nontrivial = number of distinct (operation kind, producing "
              "operation of its first operand, log4 triangle-count bucket) signatures among observed values "
@@ -13,17 +13,17 @@ CHECKS["C01"] = {
     "min_nontrivial": {"quick": 60, "thorough": 150},
     "stages": [
         {"name": "mixed", "variant": "asan", "harness": "c01_topology.cpp",
-         "cases": {"quick": 480, "thorough": 12000},
-         "params": {"steps": {"quick": 12, "thorough": 30}, "maxTris": {"quick": 3000, "thorough": 20000}},
+         "cases": {"quick": 480, "thorough": 5000},
+         "params": {"steps": {"quick": 12, "thorough": 24}, "maxTris": {"quick": 3000, "thorough": 12000}},
          "case_timeout": 300},
         {"name": "smooth", "variant": "asan", "harness": "c01_topology.cpp",
-         "cases": {"quick": 240, "thorough": 6000},
-         "params": {"profile": "smooth", "steps": {"quick": 10, "thorough": 20},
-                    "maxTris": {"quick": 2000, "thorough": 12000}},
+         "cases": {"quick": 240, "thorough": 2500},
+         "params": {"profile": "smooth", "steps": {"quick": 10, "thorough": 16},
+                    "maxTris": {"quick": 2000, "thorough": 8000}},
          "case_timeout": 300},
         {"name": "touch", "variant": "asan", "harness": "c01_topology.cpp",
-         "cases": {"quick": 1200, "thorough": 30000},
-         "params": {"profile": "touch", "steps": {"quick": 4, "thorough": 8}, "maxTris": 3000},
+         "cases": {"quick": 1200, "thorough": 12000},
+         "params": {"profile": "touch", "steps": {"quick": 4, "thorough": 6}, "maxTris": 3000},
          "case_timeout": 300},
     ],
     "assumptions": ["the topology checker in harness/common/oracles.h implements the clauses of C01 literally",
